@@ -355,9 +355,23 @@ fn build_cluster(arbiter_node: usize, writer_node: usize, writes: &[&str], resol
 }
 
 fn build_cluster_n(nodes: usize, arbiter_node: usize, writer_node: usize, writes: &[&str], resolutions: usize) -> Result<NetWorld, String> {
+    build_cluster_from(nodes, 0, arbiter_node, writer_node, writes, resolutions)
+}
+
+/// `first_writer`: the node whose client wrote the key before the conflict (a key first written
+/// through a secondary has a different version history there than on the primary)
+fn build_cluster_from(nodes: usize, first_writer: usize, arbiter_node: usize, writer_node: usize, writes: &[&str], resolutions: usize) -> Result<NetWorld, String> {
     let mut w = settled_cluster(nodes)?;
-    w.add_client(0, &[&format!("auth {} {}", USER, PWD), "create-db t tok arbiter", "use-db t tok", "set k i0", "set k i1"], false);
-    w.run_to_quiescence(20000)?;
+    if first_writer == 0 {
+        w.add_client(0, &[&format!("auth {} {}", USER, PWD), "create-db t tok arbiter", "use-db t tok", "set k i0", "set k i1"], false);
+        w.run_to_quiescence(20000)?;
+    } else {
+        w.add_client(0, &[&format!("auth {} {}", USER, PWD), "create-db t tok arbiter"], false);
+        w.run_to_quiescence(20000)?;
+        w.clients.clear();
+        w.add_client(first_writer, &["use-db t tok", "set k i0", "set k i1"], false);
+        w.run_to_quiescence(20000)?;
+    }
     w.clients.clear();
     w.add_client(arbiter_node, &["use-db t tok", "arbiter"], false);
     w.add_client(writer_node, &["use-db t tok"], false);
@@ -446,32 +460,41 @@ pub fn run_cluster(run: &mut Run) {
     crate::net::init_sleep_sites();
     let quick = run.quick();
     let deadline = std::time::Instant::now() + std::time::Duration::from_secs(if quick { 25 } else { 900 });
-    let mut configs: Vec<(usize, usize, Vec<&str>, usize, usize)> = vec![];
+    // (arbiter node, conflicting writer's node, writes, resolutions, nodes, node that first wrote the key)
+    let mut configs: Vec<(usize, usize, Vec<&str>, usize, usize, usize)> = vec![];
     for arbiter_node in 0..2 {
         for writer_node in 0..2 {
-            configs.push((arbiter_node, writer_node, vec!["set-safe k 0 c1"], 1, 2));
+            configs.push((arbiter_node, writer_node, vec!["set-safe k 0 c1"], 1, 2, 0));
             if !quick {
-                configs.push((arbiter_node, writer_node, vec!["set-safe k 0 c1", "set k c2"], 2, 2));
+                configs.push((arbiter_node, writer_node, vec!["set-safe k 0 c1", "set k c2"], 2, 2, 0));
             }
         }
     }
+    // the key was first written through the secondary (its version history differs from the primary's there)
+    for (arbiter_node, writer_node) in [(0usize, 0usize), (1, 0), (0, 1), (1, 1)] {
+        if quick && writer_node == 1 {
+            continue;
+        }
+        configs.push((arbiter_node, writer_node, vec!["set-safe k 0 c1"], 1, 2, 1));
+    }
     if !quick {
         // three nodes: arbiter and writer on the primary, and arbiter on the primary with the writer on a secondary
-        configs.push((0, 0, vec!["set-safe k 0 c1"], 1, 3));
-        configs.push((0, 2, vec!["set-safe k 0 c1"], 1, 3));
+        configs.push((0, 0, vec!["set-safe k 0 c1"], 1, 3, 0));
+        configs.push((0, 2, vec!["set-safe k 0 c1"], 1, 3, 0));
+        configs.push((0, 0, vec!["set-safe k 0 c1"], 1, 3, 2));
     }
     let mut states = 0;
     let mut transitions = 0;
     let mut replays = 0;
     let mut capped = 0;
     let mut skipped = 0;
-    for (a, wn, writes, res, nodes) in configs.iter() {
+    for (a, wn, writes, res, nodes, first) in configs.iter() {
         if std::time::Instant::now() > deadline {
             skipped += 1;
             continue;
         }
         let cfg = NetCfg { max_states: if quick { 30000 } else { 200000 }, max_path: 200, budget: std::time::Duration::from_secs(if quick { 12 } else { 200 }), workers: crate::util::workers(), by_deviations: false };
-        let mk = || build_cluster_n(*nodes, *a, *wn, writes, *res);
+        let mk = || build_cluster_from(*nodes, *first, *a, *wn, writes, *res);
         let none = |_: &NetWorld, _: &[T]| -> Vec<(String, String)> { vec![] };
         let onq = |w: &NetWorld, _: &[T]| cluster_oracle(w, *res);
         match explore_net(&mk, &none, &onq, &cfg) {
@@ -481,8 +504,9 @@ pub fn run_cluster(run: &mut Run) {
                 replays += st.replays;
                 capped += st.cap.is_some() as u64;
                 let name = if *nodes == 2 { format!("arbiter on n{}, writer on n{}: {}", a + 1, wn + 1, writes.join(" ; ")) } else { format!("{} nodes, arbiter on n{}, writer on n{}: {}", nodes, a + 1, wn + 1, writes.join(" ; ")) };
+                let name = if *first == 0 { name } else { format!("first-writer=n{} {}", first + 1, name) };
                 let role = |n: usize| if n == 0 { "primary" } else { "secondary" };
-                let shape_pre = format!("{}arbiter on the {}, conflict on the {}, {} write(s)", if *nodes == 2 { String::new() } else { format!("{} nodes, ", nodes) }, role(*a), role(*wn), writes.len());
+                let shape_pre = format!("{}{}arbiter on the {}, conflict on the {}, {} write(s)", if *first == 0 { "" } else { "key first written through a secondary, " }, if *nodes == 2 { String::new() } else { format!("{} nodes, ", nodes) }, role(*a), role(*wn), writes.len());
                 crate::props::cluster::report_findings(run, "C13", &name, findings, &|f| format!("{}: {}", shape_pre, f.detail.split(';').next().unwrap_or("").split(" (").next().unwrap_or("").chars().take(60).collect::<String>().replace(|c: char| c.is_ascii_digit(), "#")));
             }
             Err(e) => {
@@ -509,8 +533,10 @@ pub fn replay_cluster(script: &str, path: &[String]) -> i32 {
     let num = |s: &str, pat: &str| -> usize { s.split(pat).nth(1).and_then(|r| r.chars().next()).and_then(|c| c.to_digit(10)).unwrap_or(1) as usize - 1 };
     let (a, wn) = (num(script, "arbiter on n"), num(script, "writer on n"));
     let writes: Vec<&str> = script.split(": ").nth(1).unwrap_or("").split(" ; ").collect();
+    let first = if script.starts_with("first-writer=n") { num(script, "first-writer=n") } else { 0 };
+    let script = script.splitn(2, ' ').nth(if first == 0 { 0 } else { 1 }).map(|r| if first == 0 { script } else { r }).unwrap_or(script);
     let nodes = if script.starts_with("3 nodes") { 3 } else { 2 };
-    let mut w = match build_cluster_n(nodes, a, wn, &writes, writes.len()) {
+    let mut w = match build_cluster_from(nodes, first, a, wn, &writes, writes.len()) {
         Ok(w) => w,
         Err(e) => {
             eprintln!("machinery: {}", e);
